@@ -409,8 +409,9 @@ def resolve_table(q, tables, default_table=None):
     return tables['postings'] if 'postings' in tables else tables['']
 
 
-def run_query(q, tables, default_table=None):
-    """-> (names, types, rows). rows are tuples of the visible targets."""
+def run_query(q, tables, default_table=None, eager=False):
+    """-> (names, types, rows). rows are tuples of the visible targets. eager: evaluate the targets and ordering keys of
+    every group, those that HAVING removes included (as an engine may do): used to find arithmetic-domain errors."""
     table = resolve_table(q, tables, default_table)
     env = Env(tables, table)
     if q.star:
@@ -472,6 +473,11 @@ def run_query(q, tables, default_table=None):
         for key in order:
             g = groups[key]
             first = g[0]
+            if eager:
+                for t in targets:
+                    ev(t.expr, first, env, group=g)
+                for k in q.order_by or ():
+                    ev(resolve_key(k, True), first, env, group=g)
             if q.having is not None:
                 hv = ev(q.having, first, env, group=g)
                 if not hv:
@@ -573,4 +579,11 @@ def domain_error_possible(q, tables, excs, default_table=None):
                 return True
             except Exception:  # noqa: BLE001
                 pass
+    # expressions over aggregates: every group, those removed by HAVING included
+    try:
+        run_query(q, tables, default_table, eager=True)
+    except excs:
+        return True
+    except Exception:  # noqa: BLE001
+        pass
     return False
